@@ -260,8 +260,11 @@ def by_id(tab, k=0):
 
 
 def real(f, *a, **k):
+    import warnings
     try:
-        return G.quiet(f, *a, **k), None
+        with warnings.catch_warnings():
+            warnings.simplefilter('ignore')
+            return G.quiet(f, *a, **k), None
     except Exception as e:  # noqa
         return None, f'{type(e).__name__}: {str(e)[:160]}'
 
@@ -361,7 +364,7 @@ def oracle(case, d, report, check_mesh=True):
     fd, err = real(FEMData.read_directory, 'fistr', d, read_npy=False, save=False, time_series=True)
     series = None
     if err:
-        sig = 'series-singleton-raises' if len(steps) == 1 else f'series-read-raises:{lay}'
+        sig = 'series-singleton-raises' if len(steps) == 1 and singles[steps[0]] is not None else f'series-read-raises:{lay}'
         report(sig, f'read_directory(time_series=True) over steps {steps} raises {err}', {'error': err, 'steps': steps})
         series = {'raises': err}
     else:
